@@ -156,3 +156,44 @@ package layer4
 //@ assigns[C01] nothing
 //@ ensures[C01] result != nil && fresh(result) && result.Conn == underlying && sameslice(result.buf, buf) && result.offset == 0 && !result.matching
 //@ ensures[C01] wfcx(result) && wf(result) && vpos(result) == rpos(underlying)
+
+// Handlers (interface contract used at call sites and refined by the handlers under contract).
+// What a handler does to the connection is its own business (everything reachable from cx and all
+// ghost state may change), except for buffer ownership (C08/C13): the buffer the connection had on
+// entry escapes (is kept by something that outlives the call) only if the handler reports the
+// hand-off by returning errHijacked.
+//@ func (h Handler) Handle(cx *Connection) (err error)
+//@ requires cx != nil && cx.Conn != nil
+//@ ensures cx.Conn != nil
+//@ ensures err != errHijacked ==> escaped(old(arr(cx.buf))) == old(escaped(arr(cx.buf)))
+//@ ensures inpool(old(arr(cx.buf))) == old(inpool(arr(cx.buf)))
+
+//@ func (h NextHandler) Handle(cx *Connection, next Handler) (err error)
+//@ requires cx != nil && cx.Conn != nil && next != nil
+//@ ensures cx.Conn != nil
+//@ ensures err != errHijacked ==> escaped(old(arr(cx.buf))) == old(escaped(arr(cx.buf)))
+//@ ensures inpool(old(arr(cx.buf))) == old(inpool(arr(cx.buf)))
+
+// Hand-off to the wrapped listener (C13): exactly one value is sent on connChan, the hijack
+// sentinel is returned, and the connection's buffer is marked as escaped.
+//@ func (l *listener) pipeConnection(conn *Connection) (err error)
+//@ requires l != nil && l.connChan != nil && wfcx(conn)
+//@ requires[inv] isnil(ctxval(conn.Context, VarsCtxKey).(map[string]any)["tls_connection_states"]) || istype(ctxval(conn.Context, VarsCtxKey).(map[string]any)["tls_connection_states"], []*tls.ConnectionState)
+//@ safety C13
+//@ ensures[C13] err == errHijacked
+//@ ensures[C13] sends(l.connChan) == old(sends(l.connChan)) + 1
+//@ ensures[ghost] escaped(arr(conn.buf))
+
+//@ func (l *listener) handle(conn net.Conn)
+//@ requires l != nil && conn != nil && l.compiledRoute != nil && l.logger != nil && l.wg != nil
+//@ requires 0 <= rpos(conn) && rpos(conn) < 4611686018427387904
+//@ safety C13
+
+// The fallback of a listener wrapper: forwards to pipeConnection, hence refines the handler
+// interface (the buffer escapes only together with the hijack sentinel).
+//@ func (lh listenerHandler) Handle(conn *Connection) (err error)
+//@ requires wfcx(conn)
+//@ requires[inv] istype(ctxval(conn.Context, listenerCtxKey), *listener) && ctxval(conn.Context, listenerCtxKey).(*listener) != nil && ctxval(conn.Context, listenerCtxKey).(*listener).connChan != nil
+//@ requires[inv] isnil(ctxval(conn.Context, VarsCtxKey).(map[string]any)["tls_connection_states"]) || istype(ctxval(conn.Context, VarsCtxKey).(map[string]any)["tls_connection_states"], []*tls.ConnectionState)
+//@ safety C13
+//@ ensures[C13] err == errHijacked
